@@ -227,7 +227,9 @@ func holdsKey(v reflect.Value) bool {
 func (f *filler) extDoc(typ string) []byte {
 	r := f.r
 	base := "ExtendConfigs[" + typ + "].Config:json:"
-	keyName := func() string { return []string{"private_key", "private_key", "private_key", "Private_Key", "PRIVATE_KEY"}[r.Intn(5)] }
+	keyName := func() string {
+		return []string{"private_key", "private_key", "private_key", "Private_Key", "PRIVATE_KEY"}[r.Intn(5)]
+	}
 	var ctx func(where string, depth int) map[string]interface{}
 	ctx = func(where string, depth int) map[string]interface{} {
 		m := map[string]interface{}{"status": true, "server_name": f.uniq("sn")}
@@ -293,7 +295,7 @@ func c20(args []string) int {
 	seedMix := NewRng(run.Seed)
 	r := NewRng(seedMix.U64() ^ (seedMix.U64() << 1) ^ 0xC20)
 	log.DefaultLogger.SetLogLevel(log.FATAL)
-	run.Sum.Rule = "configurations: reflect-random values of the real config types (nil/empty/1-2 element slices and maps, nil/non-nil pointers, both TLS shapes of a filter chain, cluster and cluster-manager TLS, tunnel_agent/unknown extension configs, extension JSON documents with 0-4 TLS contexts at the top / as sibling members / in arrays / deep / nested in each other with the key in three spellings and now and then a non-string private_key), a distinct marker secret at EVERY v2.TLSConfig the types contain (85% non-empty); histories: 3-14 real setter calls (SetMosnConfig/SetListenerConfig/SetClusterConfig/SetRemoveClusterConfig/SetHosts/SetRouter/SetExtend/SetClusterManagerTLS) interleaved with transferConfig and file dumps; then EVERY query variant of admin ConfigDump (the full dump six times: the JSON redactor ranges over Go maps) incl. one name per router/cluster/listener, a missing name, an unknown key, two keys and POST. A case (= one endpoint call) is non-trivial when the live config holds at least one marker reachable from that endpoint; distinct by (history shape, endpoint kind, marker classes)."
+	run.Sum.Rule = "configurations: reflect-random values of the real config types (nil/empty/1-2 element slices and maps, nil/non-nil pointers, both TLS shapes of a filter chain, cluster and cluster-manager TLS, tunnel_agent/unknown extension configs, extension JSON documents with 0-4 TLS contexts at the top / as sibling members / in arrays / deep / nested in each other with the key in three spellings and now and then a non-string private_key), a distinct marker secret at EVERY v2.TLSConfig the types contain (85% non-empty), and in the opaque positions (interface{} / map[string]interface{} / json.RawMessage: filter, per-filter, health-check, extend-verify, tracing, codec configs, raw resources) now and then a tls_context.private_key / Private_Key / array-nested private_key marker or a direct private_key member of the map; histories: 3-14 real setter calls (SetMosnConfig/SetListenerConfig/SetClusterConfig/SetRemoveClusterConfig/SetHosts/SetRouter/SetExtend/SetClusterManagerTLS) interleaved with transferConfig and file dumps; then EVERY query variant of admin ConfigDump (the full dump six times: the JSON redactor ranges over Go maps) incl. one name per router/cluster/listener, a missing name, an unknown key, two keys and POST. A case (= one endpoint call) is non-trivial when the live config holds at least one marker reachable from that endpoint; distinct by (history shape, endpoint kind, marker classes)."
 	placeholder := configmanager.VerifPlaceholder()
 	tmpRoot := filepath.Join(run.Out, "cfgdir")
 	os.MkdirAll(tmpRoot, 0o755)
@@ -309,7 +311,7 @@ func c20(args []string) int {
 	for h := 0; h < nHist; h++ {
 		configmanager.Reset()
 		configmanager.VerifSetAutoWrite(r.Pct(50))
-		f := &filler{r: r, maxDepth: 7, tmp: tmpRoot}
+		f := &filler{r: r, maxDepth: 7, tmp: tmpRoot, blobKeys: true}
 		var ops []string
 		names := map[string][]string{}
 		setMosn := func() {
